@@ -6,7 +6,7 @@ import itertools
 from hypothesis import strategies as st
 
 from pbt import exprref as X
-from pbt.drive import EnumStage, Err, HarnessError, HypStage, Violation, import_repo, lib
+from pbt.drive import EnumStage, Err, FuncStage, HarnessError, HypStage, Violation, import_repo, lib
 
 ID = "C10"
 RULE = (
@@ -288,24 +288,28 @@ def _run_ast(case, ctx, m):
 
 
 def _run_enum(case, ctx, m):
+    consts = case.get("consts", ENUM_CONSTS)
+    context = case.get("ctx", {})
     cs = m.cstruct()
-    cs.consts.update(ENUM_CONSTS)
+    cs.consts.update(consts)
     ctx.evaluations += len(case["texts"]) - 1
     for text in case["texts"]:
         ast = X.parse(text)
-        kind, want = _expect(ast, {}, ENUM_CONSTS)
+        kind, want = _expect(ast, context, consts)
+        if kind == "unbound":
+            continue
         if kind == "ood":
             ctx.count("enum:out-of-domain-skipped")
             continue
         e = lib(m.Expression, cs, text)
         if isinstance(e, Err):
             raise Violation("well-formed-rejected", f"Expression({text!r}) raised {e}", e.where)
-        got = lib(e.evaluate)
+        got = lib(e.evaluate, dict(context))
         if isinstance(got, Err):
             raise Violation("evaluate-raised", f"{text!r}: {got} (expected {want})", got.where)
         if got != want:
             raise Violation("wrong-value", f"{text!r}: got {got}, C value {want}")
-        again = lib(e.evaluate)
+        again = lib(e.evaluate, dict(context))
         if isinstance(again, Err) or again != want:
             raise Violation("re-evaluation-differs", f"{text!r}: second evaluation gives {again}, first {got}")
         ctx.count("enum:evaluated")
@@ -396,6 +400,58 @@ def _rename_text(text, sub=None):
     return re.sub(r"\b([ab])\b", lambda mm: sub[mm.group(1)], text)
 
 
+FUZZ_ALPHABET = "0123456789abxXABuUlL()+-*/%&|^~<> \tnKsizeofuint8_"
+FUZZ_CONSTS = {"A": 7, "B": 3, "n": 2, "K": 40}
+FUZZ_CTX = {"n": 5, "x": 11}
+
+
+def fuzz_stage(runner, ctx, shard, nshards, seed, tier):
+    """Coverage-guided stage (atheris/libFuzzer) in a subprocess; every crash artefact becomes an ordinary replayable case."""
+    import glob
+    import json
+    import os
+    import shutil
+    import subprocess
+    import sys
+    import tempfile
+
+    from pbt.drive import REPO, VERIF
+
+    deps = os.path.join(VERIF, ".deps")
+    probe = subprocess.run([sys.executable, "-c", f"import sys; sys.path.append({deps!r}); import atheris"], capture_output=True)
+    if probe.returncode != 0:
+        ctx.count("fuzz:skipped(atheris-not-installed)")
+        return
+    tmp = tempfile.mkdtemp(prefix="vp-c10-fuzz-")
+    try:
+        corpus = os.path.join(tmp, "corpus")
+        os.makedirs(corpus)
+        if shard % 2:  # odd shards start from a few valid inputs, even shards from an empty corpus
+            for i, t in enumerate(["1 + 2 * 3", "~(A + 5)", "0x1b << 2 | n", "sizeof(uint8) * (K - n)", "010ULL % 7", "-B - -n"]):
+                with open(os.path.join(corpus, f"s{i}"), "wb") as fh:
+                    fh.write(bytes(FUZZ_ALPHABET.index(c) for c in t if c in FUZZ_ALPHABET))
+        runs = 150_000 if tier == "quick" else 4_000_000
+        stats = os.path.join(tmp, "stats.json")
+        cmd = [sys.executable, "-B", os.path.join(VERIF, "fuzz", "c10_fuzz.py"), stats, f"-runs={runs}", f"-seed={seed % (2**31 - 1) + 1}", "-max_len=48",
+               f"-artifact_prefix={tmp}/", corpus]
+        r = subprocess.run(cmd, capture_output=True, text=True, env=dict(os.environ, VERIF_REPO=REPO), timeout=1800)
+        if os.path.exists(stats):
+            st_ = json.load(open(stats))
+            ctx.evaluations += st_["execs"]
+            ctx.count("fuzz:execs", st_["execs"])
+            ctx.count("fuzz:well-formed", st_["well_formed"])
+            ctx.count("fuzz:in-domain-compared", st_["in_domain"])
+        ctx.count("fuzz:corpus-" + ("seeded" if shard % 2 else "empty"))
+        for art in sorted(glob.glob(os.path.join(tmp, "crash-*"))):
+            data = open(art, "rb").read()
+            text = "".join(FUZZ_ALPHABET[b % len(FUZZ_ALPHABET)] for b in data[:48])
+            runner({"texts": [text], "consts": FUZZ_CONSTS, "ctx": FUZZ_CTX, "fuzz": True})
+        if r.returncode not in (0,) and not glob.glob(os.path.join(tmp, "crash-*")):
+            raise HarnessError(f"fuzz target failed without an artefact: {r.stderr[-800:]}")
+    finally:
+        shutil.rmtree(tmp, ignore_errors=True)
+
+
 def selfcheck():
     """The reference parser agrees with Python's own evaluator on a fixed family (oracle validity; exit 2 if not)."""
     for text in ["1 + 2 * 3", "1 | 2 ^ 3 & 4", "1 << 2 + 1", "7 - 2 - 1", "100 / 5 / 2", "~1 + -2 * 3", "(1 + 2) * 3", "1 - -1", "2 * ~3", "010 + 0x10 + 0b11"]:
@@ -410,12 +466,14 @@ def stages(tier):
             HypStage("ast", ast_case, examples=1500, shards=6),
             HypStage("callers", caller_case, examples=300, shards=4),
             EnumStage("enum2", enum_cases(2, ATOMS[:4], PREFIXES), shards=6, scope="all expressions with <=2 binary operators over 4 atoms x 3 unary prefixes, flat (spaced and unspaced) and every full parenthesisation"),
+            FuncStage("enum-fuzz", fuzz_stage, shards=2),
         ]
     return [
         HypStage("ast", ast_case, examples=20000, shards=8),
         HypStage("callers", caller_case, examples=3000, shards=4),
         EnumStage("enum2", enum_cases(2, ATOMS, PREFIXES + ["-~", "~-", "- -"]), shards=8, scope="<=2 binary operators over 6 atoms x 6 unary prefixes"),
         EnumStage("enum3", enum_cases(3, ATOMS[:3], PREFIXES[:2]), shards=16, scope="<=3 binary operators over 3 atoms x 2 unary prefixes"),
+        FuncStage("enum-fuzz", fuzz_stage, shards=4),
     ]
 
 
